@@ -32,6 +32,8 @@ def build(spec, counter):
         return n.Text((i,), f"t{i}")
     if kind == "leaf":
         return n.Transition((i,))  # a block-level node that is not a Parent
+    if kind == "c0":
+        return n.Comment((i,), [])  # an empty comment (".." alone on a line): no children at all
     if kind[0] == "c":
         txt = {"S": S, "E": E, "X": "other", "B": S}[kind[1]]
         j = counter[0]
@@ -45,11 +47,18 @@ def build(spec, counter):
     raise ValueError(kind)
 
 
+def _is_bound(node, text):
+    try:
+        return bool(IncludeHandler.is_bound(node, text))
+    except BaseException:  # the real predicate raised: the implementation's own run will show what that does
+        return False
+
+
 def to_model(node, start, end):
     return {
         "id": node.span[0],
-        "s": bool(start) and IncludeHandler.is_bound(node, start),
-        "e": bool(end) and IncludeHandler.is_bound(node, end),
+        "s": bool(start) and _is_bound(node, start),
+        "e": bool(end) and _is_bound(node, end),
         "c": [to_model(c, start, end) for c in node.children] if isinstance(node, n.Parent) else [],
     }
 
@@ -65,8 +74,10 @@ def gen_tree(rng, depth, markers):
         r = rng.random()
         if markers and r < 0.3:
             out.append([markers.pop(rng.randrange(len(markers))), []])
-        elif r < 0.4:
+        elif r < 0.36:
             out.append(["leaf", []])
+        elif r < 0.42:
+            out.append(["c0", []])
         elif r < 0.55 or depth >= 3:
             out.append(["para", [["txt", []] for _ in range(rng.randint(0, 2))]])
         elif r < 0.75:
@@ -374,7 +385,7 @@ class C06(core.PropertyCheck):
             counter[0] += 1
             me = len(flat)
             flat.append([i, kind, None, list(anc)])
-            if kind[0] in "cl" and kind not in ("list", "leaf"):
+            if kind[0] in "cl" and kind not in ("list", "leaf", "c0"):
                 j = counter[0]
                 counter[0] += 1
                 flat.append([j, "leaf", len(flat), list(anc) + [i]])
